@@ -74,7 +74,7 @@ def ref_admit(specs, node, t):
             raise Reject('expected dict')
         out = []
         for k, v in node.value:
-            kk = ref_admit(specs, k, 'str')
+            kk = ref_admit(specs, k, t[2])
             vv = ref_admit(specs, v, t[3])
             for i, (k0, _) in enumerate(out):
                 if k0 == kk:
@@ -186,7 +186,7 @@ def rec_count(specs, node, t):
         if not isinstance(node, yaml.MappingNode):
             return 0
         for k, v in node.value:
-            if rec_count(specs, k, 'str') != 1:
+            if rec_count(specs, k, t[2]) != 1:
                 return 0
             c = rec_count(specs, v, t[3])
             if c != 1:
@@ -324,6 +324,43 @@ def tie(ctx, model_ok=True):
                         yield fam, tyspec, loadcase.serialize(node), 'flat-directed'
                     except Exception:      # noqa
                         continue
+        # 2c. declarative seasoning: documents that are valid by construction once the savorize transform has run
+        for fspecs, fty, fnode, fdesc in loadcase.transform_cases(rnd):
+            if fdesc.startswith('valid-by-construction'):
+                try:
+                    yield fspecs, fty, loadcase.serialize(fnode), fdesc
+                except Exception:      # noqa
+                    continue
+        # 2d. nested objects of ONE class that takes _yatiml_extra, each with its own extra attributes
+        nest = [{'name': 'Nd', 'kind': 'obj', 'bases': [], 'extra': True, 'registered': True,
+                 'params': [{'name': 'title', 'type': 'str', 'required': True},
+                            {'name': 'child', 'type': ('optional', ('class', 'Nd')), 'required': False},
+                            {'name': 'kids', 'type': ('list', 0, ('class', 'Nd')), 'required': False}]}]
+        leaf = M([(S('title'), S('leaf')), (S('editor'), S('z'))])
+        for doc in (M([(S('title'), S('top')), (S('author'), S('me')), (S('child'), encode.copy_tree(leaf))]),
+                    M([(S('title'), S('top')), (S('child'), encode.copy_tree(leaf)), (S('author'), S('me')), (S('year'), S('7', 'int'))]),
+                    M([(S('title'), S('top')), (S('author'), S('me')), (S('kids'), Q([encode.copy_tree(leaf), M([(S('title'), S('k2'))])]))]),
+                    M([(S('title'), S('top')), (S('child'), M([(S('title'), S('mid')), (S('a'), S('1', 'int')), (S('child'), encode.copy_tree(leaf))]))])):
+            try:
+                yield nest, ('class', 'Nd'), loadcase.serialize(doc), 'flat-directed'
+            except Exception:      # noqa
+                continue
+        # 2e. scalars of every kind at string-like / Enum / Path positions (alone, in a Union with bool, as dict keys)
+        sl = [{'name': 'Ident', 'kind': 'str', 'bases': [], 'strbase': 'yatiml.String', 'registered': True},
+              {'name': 'Col', 'kind': 'enum', 'members': ['red', 'true'], 'bases': [], 'registered': True}]
+        for leaf in (S('true', 'bool'), S('False', 'bool'), S('red'), S('7', 'int'), S('1.5', 'float'), S('~', 'null'), S('true')):
+            for ty in (('class', 'Ident'), ('class', 'Col'), 'path', ('union', ['bool', ('class', 'Ident')]),
+                       ('union', ['int', 'bool', ('class', 'Ident')]), ('optional', ('class', 'Ident'))):
+                try:
+                    yield sl, ty, loadcase.serialize(encode.copy_tree(leaf)), 'flat-directed'
+                    yield sl, ('list', 0, ty), loadcase.serialize(Q([encode.copy_tree(leaf)])), 'flat-directed'
+                except Exception:      # noqa
+                    continue
+            for kty in (('class', 'Ident'), 'str'):
+                try:
+                    yield sl, ('dict', 3, kty, 'int'), loadcase.serialize(M([(encode.copy_tree(leaf), S('1', 'int'))])), 'flat-directed'
+                except Exception:      # noqa
+                    continue
         # 3. the hierarchy-free fragment: valid documents and corruptions (also judged by the reference oracle)
         for _ in range(n_models * 2):
             specs = flat_model2(rnd, c17)
@@ -396,7 +433,13 @@ def tie(ctx, model_ok=True):
             return ('other-value:' + c.desc, f'{c.text!r} as {c.tyspec}: the documented pipeline builds {want[1]!r}, load returned {got[1]!r}')
         return None
 
-    res = loadprop.run_stream(ctx, 'C02', stream(), [reference_oracle])
+    def valid_oracle(c):
+        if c.desc.startswith('valid-by-construction') and c.outcome[0] != 'ok':
+            return ('rejects-valid-document:' + c.desc.split(':')[-1],
+                    f'{c.text!r} as {c.tyspec} is valid once the class\'s declarative seasoning has run, but load raised {str(c.outcome[1])[:200]!r}')
+        return None
+
+    res = loadprop.run_stream(ctx, 'C02', stream(), [reference_oracle, valid_oracle])
     res['distribution']['reference_fragment'] = frag
     res['rule'] = ('auto-recognised generated class models x (valid / mutated / directed) documents; ALL node trees <= 4 nodes over '
                    '{a, 1, 1.5, true, ~} x keys {a, a-b, a_b, self, _yatiml_extra, n} for 4 fixed models x their types (sampled in the '
